@@ -93,6 +93,10 @@ func init() {
 		res := Res{"setup": true, "enc_ok": true, "plainlen": len(plain), "ctlen": len(ct)}
 		ok, same, _ := decrypt(ct, priv)
 		res["dec_ok"], res["dec_same"] = ok, same
+		// the matching private key in the other forms DecryptInnerData documents: pointer and 32-byte slice
+		okp, samep, _ := decrypt(ct, &priv)
+		okb, sameb, _ := decrypt(ct, []byte(append([]byte{}, priv...)))
+		res["dec_forms_same"] = okp && samep && okb && sameb
 		ok, _, nv := decrypt(ct, wrongPriv)
 		res["wrongkey_rejected"] = !ok && nv
 		ok, _, nv = decrypt(ct, []byte(wrongPriv))
